@@ -258,7 +258,12 @@ Definition add_chain (w : world) (c : list gref) : world :=
   else w.
 
 (* ---- wire format ---- *)
-(* script:  nmod cnt_1 .. cnt_nmod   nch (len mode m0 g0 m1 g1 ..){nch}   query*
+(* script:  p   nmod cnt_1 .. cnt_nmod   nch (len mode m0 g0 m1 g1 ..){nch}   query*
+     p = position of the process-global ModuleId counter when the simulation is built
+         (the runner burns ids until the next ModuleId::gen() returns p mod 2^16);
+         the first output record is  10 nmod d z :  d = the module ids of the simulation
+         are pairwise distinct (the premise under which a module index stands for its id),
+         z = number of modules whose id is ModuleId::NULL = 0
      (len counts mode and the 2*(hops+1) gate coordinates; mode only tells the
       harness in which order/orientation to issue the connect calls)
    query = 1                 Globals::topology()            -> current
@@ -372,11 +377,27 @@ Fixpoint exec_all (w : world) (t : topo) (qs : list query) : list N :=
   | q :: r => let '(t', o) := exec w t q in o ++ exec_all w t' r
   end.
 
-Definition run (input : list N) : list N :=
+Definition run_sim (input : list N) : list N :=
   let '(counts, r1) := take_lp' input in
   match r1 with
   | [] => exec_all (build_world counts []) empty_topo []
   | nch :: r2 =>
       let '(chains, r3) := take_chains (cl 64 nch) r2 in
       exec_all (build_world counts chains) empty_topo (decode_all dec_query r3)
+  end.
+
+(* ModuleId::gen: `MODULE_ID.fetch_add(1)` on a process-global AtomicU16 (wrapping);
+   with the counter at p the n modules of a simulation get p, p+1, .. (mod 2^16) *)
+Definition ID_SPACE : N := 65536.
+Definition gen_ids (p : N) (n : nat) : list N := map (fun i => (p + N.of_nat i) mod ID_SPACE) (seq 0 n).
+Fixpoint distinctb (l : list N) : bool :=
+  match l with [] => true | x :: r => negb (existsb (N.eqb x) r) && distinctb r end.
+
+Definition run (input : list N) : list N :=
+  match input with
+  | [] => []
+  | p :: rest =>
+      let n := length (init_world (fst (take_lp' rest))) in
+      let ids := gen_ids (p mod ID_SPACE) n in
+      [10; N.of_nat n; b2n (distinctb ids); N.of_nat (length (filter (N.eqb 0) ids))] ++ run_sim rest
   end.
